@@ -23,8 +23,8 @@ func init() {
 	})
 	property(&Property{
 		ID:      "C05",
-		Rules:   []string{"SA-J", "SA-JT", "SA-J3", "SA-JT3", "SA-Jglue"},
-		Explain: "SA-Jglue: the one rule Document.Check adds to the scanner's verdict — a text for which the scanner delivers no lexeme is rejected as empty JSON, any other text is accepted when the scanner ends normally, scanner errors are returned unchanged — is read off Document.check and Document.nextLexeme themselves (scanner replaced by a staged oracle); the product rules take it as given. The transition relation of the formats/json scanner is extracted from its own Next() method by abstract interpretation of the SSA (scanner object tracked exactly, one input byte at a time, positions symbolic) and compared, by breadth-first product construction, with a reference RFC 8259 byte transducer: in every reachable state pair up to the nesting bound (2 quick, 4 thorough), for each of the 256 byte values and for end of input, the scanner rejects iff the reference rejects, accepts end of input iff the reference does (including the empty-document rule of Document.check), in strict mode and with AllowTrailingNonSpaceCharacters. Literal tokens (strings, numbers, true/false/null) are unbounded in length: their automaton states are merged, so the token language is decided for all lengths.",
+		Rules:   []string{"SA-J", "SA-JT", "SA-J3", "SA-JT3", "SA-Jglue", "CT-1"},
+		Explain: "CT-1: the scanners' window is the whole text — data and dataSize are set by the constructor only, from the file's Content() and its length. SA-Jglue: the one rule Document.Check adds to the scanner's verdict — a text for which the scanner delivers no lexeme is rejected as empty JSON, any other text is accepted when the scanner ends normally, scanner errors are returned unchanged — is read off Document.check and Document.nextLexeme themselves (scanner replaced by a staged oracle); the product rules take it as given. The transition relation of the formats/json scanner is extracted from its own Next() method by abstract interpretation of the SSA (scanner object tracked exactly, one input byte at a time, positions symbolic) and compared, by breadth-first product construction, with a reference RFC 8259 byte transducer: in every reachable state pair up to the nesting bound (2 quick, 4 thorough), for each of the 256 byte values and for end of input, the scanner rejects iff the reference rejects, accepts end of input iff the reference does (including the empty-document rule of Document.check), in strict mode and with AllowTrailingNonSpaceCharacters. Literal tokens (strings, numbers, true/false/null) are unbounded in length: their automaton states are merged, so the token language is decided for all lengths.",
 		Assume: []string{
 			"nesting deeper than the bound is not explored (the scanner inspects only the top two stack entries)",
 			"the glue in Document.check/nextLexeme (recover, EndTop => EOF, zero lexemes => ErrEmptyJson) is modelled in the driver as read on the pinned tree; a change there is outside this rule",
@@ -37,8 +37,8 @@ func init() {
 	})
 	property(&Property{
 		ID:      "C06",
-		Rules:   []string{"SA-J", "SA-S", "SA-E", "T-enum", "SA-J3", "SA-S-deep", "SA-E-deep"},
-		Explain: "Same product as C05, comparing in addition the lexical events: on every byte and at end of input the formats/json scanner model must emit exactly the events of the reference transducer (types, order, and spans written relative to the consumed byte and to the begin offsets of the open events): literal/key spans = the source token, container spans from opening to closing bracket, wrappers closed on the first byte after the value. SA-S / SA-E run the same product against the schema scanner and the enum-rule scanner restricted to plain JSON input: every byte the reference accepts must be accepted with the same events (new-line events dropped; exponents, and for enum rules non-array roots and nested containers, are documented deviations; duplicate detection of the enum scanner abstracted).",
+		Rules:   []string{"SA-J", "SA-S", "SA-E", "T-enum", "SA-J3", "SA-S-deep", "SA-E-deep", "CT-1"},
+		Explain: "CT-1: the scanners' window is the whole text — data and dataSize are set by the constructor only, from the file's Content() and its length. Same product as C05, comparing in addition the lexical events: on every byte and at end of input the formats/json scanner model must emit exactly the events of the reference transducer (types, order, and spans written relative to the consumed byte and to the begin offsets of the open events): literal/key spans = the source token, container spans from opening to closing bracket, wrappers closed on the first byte after the value. SA-S / SA-E run the same product against the schema scanner and the enum-rule scanner restricted to plain JSON input: every byte the reference accepts must be accepted with the same events (new-line events dropped; exponents, and for enum rules non-array roots and nested containers, are documented deviations; duplicate detection of the enum scanner abstracted).",
 		Assume: []string{
 			"rebuilding the JSON value from the events is not decided (content is symbolic)",
 			"nesting beyond the bound not explored",
@@ -64,8 +64,8 @@ func init() {
 	})
 	property(&Property{
 		ID:      "C14",
-		Rules:   []string{"LEN-trim", "LEN-json", "LEN-schema", "LEN-enum", "LEN-json-deep", "LEN-schema-deep", "LEN-enum-deep", "SX-eol-schema", "SX-eol-enum"},
-		Explain: "SX-eol-*: a trailing inline comment or note ends at its line break, so the length does not run over the next line of the enclosing text. LEN-trim reads off each Length() method's own code (abstract interpretation with Next() replaced by a staged oracle delivering symbolic lexemes) what it holds before trimming — End of the last lexeme + k, and what the end-top marker does to it — and that the trimming loop steps back over blank bytes one at a time from data[P-1]. LEN-json / LEN-schema / LEN-enum walk the product of the scanner model extracted from Next() in length mode with the RFC 8259 reference transducer in trailing mode, for every byte value in every reachable state pair up to nesting 2, carrying as ghost state where the top-level value ended (V), where the first foreign byte is (F) and the value Length() would hold (G), as offsets from the byte just consumed. Wherever the scan can stop — the end-top marker (foreign byte directly after the value, after blanks, or one byte late), or end of input — V+1 <= G <= F must hold, so that trimming lands exactly on the length of the value; a text cut short inside a value must yield an error, and a foreign byte after a complete value must not.",
+		Rules:   []string{"LEN-trim", "LEN-json", "LEN-schema", "LEN-enum", "LEN-json-deep", "LEN-schema-deep", "LEN-enum-deep", "SX-eol-schema", "SX-eol-enum", "CT-1"},
+		Explain: "CT-1: the scanners' window is the whole text — data and dataSize are set by the constructor only, from the file's Content() and its length. SX-eol-*: a trailing inline comment or note ends at its line break, so the length does not run over the next line of the enclosing text. LEN-trim reads off each Length() method's own code (abstract interpretation with Next() replaced by a staged oracle delivering symbolic lexemes) what it holds before trimming — End of the last lexeme + k, and what the end-top marker does to it — and that the trimming loop steps back over blank bytes one at a time from data[P-1]. LEN-json / LEN-schema / LEN-enum walk the product of the scanner model extracted from Next() in length mode with the RFC 8259 reference transducer in trailing mode, for every byte value in every reachable state pair up to nesting 2, carrying as ghost state where the top-level value ended (V), where the first foreign byte is (F) and the value Length() would hold (G), as offsets from the byte just consumed. Wherever the scan can stop — the end-top marker (foreign byte directly after the value, after blanks, or one byte late), or end of input — V+1 <= G <= F must hold, so that trimming lands exactly on the length of the value; a text cut short inside a value must yield an error, and a foreign byte after a complete value must not.",
 		Assume: []string{
 			"the embedded text is plain JSON (values, arrays of scalars for enums): annotations, comments, type shortcuts and other JSight-only syntax after or inside the schema are not walked by this product (annotation and comment starters are not treated as foreign bytes)",
 			"that Check accepts the prefix with the same meaning is C05/C06 for JSON (same scanner, same events); for schemas it is not decided here",
@@ -134,8 +134,8 @@ func init() {
 	})
 	property(&Property{
 		ID:      "C08",
-		Rules:   []string{"T1", "T2", "T5", "T6", "T9", "OM-model", "T-pairs", "T-banned", "T-compat", "OM-model-deep", "OR-6"},
-		Explain: "OR-6: the pair comparison runs after the exclusive flags are folded into their bounds, so that strictness applies (T5 and T6 decide the two steps, OR-6 their order). T-banned: allowedConstraintCheck rejects exactly the combinations format rule + minLength/maxLength/regex and any + const, decided from the rules present on the node. T-compat: checkCompatibilityOfConstraints rejects a plain node iff one of its rules does not apply to its kind, whatever other rules are present. T-pairs: checkPairConstraints runs the pair check that applies to a plain JSON kind and all three on nodes whose kind does not decide (rule-sets of an or rule are compiled on nodes of kind mixed). T1: the applicability matrix — IsJsonTypeCompatible of every constraint type evaluated on every JSON kind equals the matrix the property states (numeric rules on numbers, precision on float, length/regex/format rules on strings, item counts on arrays, additionalProperties/allOf on objects). T2: every rule name builds the constraint of that name, unknown names are rejected. T5: paired bounds are accepted iff min<=max (strictly when either is exclusive), minLength<=maxLength, minItems<=maxItems. T6: exclusive flags without their bound are rejected. T9 + OM-model: the false-rule filter removes exactly nullable:false/const:false, and the ordered map's Filter visits every entry exactly once whatever is removed — the source of the order dependence named in the property.",
+		Rules:   []string{"T1", "T2", "T5", "T6", "T9", "OM-model", "T-pairs", "T-banned", "T-compat", "OM-model-deep", "OR-6", "T-foreign"},
+		Explain: "T-foreign: the four no-other-rules checks (enum, or, any, type reference) reject a node whenever a rule outside their reviewed companion lists is present, the node's rule count being modelled as queried-and-present plus others. OR-6: the pair comparison runs after the exclusive flags are folded into their bounds, so that strictness applies (T5 and T6 decide the two steps, OR-6 their order). T-banned: allowedConstraintCheck rejects exactly the combinations format rule + minLength/maxLength/regex and any + const, decided from the rules present on the node. T-compat: checkCompatibilityOfConstraints rejects a plain node iff one of its rules does not apply to its kind, whatever other rules are present. T-pairs: checkPairConstraints runs the pair check that applies to a plain JSON kind and all three on nodes whose kind does not decide (rule-sets of an or rule are compiled on nodes of kind mixed). T1: the applicability matrix — IsJsonTypeCompatible of every constraint type evaluated on every JSON kind equals the matrix the property states (numeric rules on numbers, precision on float, length/regex/format rules on strings, item counts on arrays, additionalProperties/allOf on objects). T2: every rule name builds the constraint of that name, unknown names are rejected. T5: paired bounds are accepted iff min<=max (strictly when either is exclusive), minLength<=maxLength, minItems<=maxItems. T6: exclusive flags without their bound are rejected. T9 + OM-model: the false-rule filter removes exactly nullable:false/const:false, and the ordered map's Filter visits every entry exactly once whatever is removed — the source of the order dependence named in the property.",
 		Assume: []string{
 			"companion-rule exclusivity counts (or / enum / any / type references with foreign rules), duplicate-rule detection and order independence beyond the filter are not decided",
 		},
@@ -208,8 +208,8 @@ func init() {
 	})
 	property(&Property{
 		ID:      "C03",
-		Rules:   []string{"T10", "T-tree", "T-list", "T-object", "T-any", "AL-1", "VIS-allof", "VF-1", "NU-1", "T-tree-deep", "T-apeq", "KS-1"},
-		Explain: "T-apeq: two additionalProperties rules count as the same (no allOf conflict) only when mode, schema type and type name were all found equal. KS-1: matching a document key against key shortcuts does not depend on which keys are still owed, so a shortcut admits any number of keys. NU-1: anonymous or-item types are named after their own schema object, so the anonymous types of several user types cannot collide when they are hoisted into one root. VF-1: a validator has no slot for other validators except its parent link: child validators are made for one value and handed to the tree. VIS-*: the recursive walks (schema checker, allOf compiler, used-type collector) and the loops over the type table reach every child and every type — the visiting call is on every path through the loop body and the loop on every path to a normal return, the only bypasses being a failed comma-ok test and loop exhaustion. T10: the additionalProperties dispatch — rule text to mode (any/true, false, @type, a schema type name, anything else rejected) and mode to validator (any value / reject the key / kind check for object, array, scalar / the named type's validators), exhaustive over the declared modes. T-tree: union semantics of candidate validators — every live candidate receives each lexeme and a position is rejected only when every candidate failed (1..3 candidates x all outcomes). T-object: an unknown key is offered to the key shortcuts, then to additionalProperties, else rejected. T-any: additionalProperties any swallows one whole value.",
+		Rules:   []string{"T10", "T-tree", "T-list", "T-object", "T-any", "AL-1", "VIS-allof", "VF-1", "NU-1", "T-tree-deep", "T-apeq", "KS-1", "KS-2"},
+		Explain: "KS-2: the loop over the key shortcuts is left by a return only with a positive answer, so every shortcut is tried. T-apeq: two additionalProperties rules count as the same (no allOf conflict) only when mode, schema type and type name were all found equal. KS-1: matching a document key against key shortcuts does not depend on which keys are still owed, so a shortcut admits any number of keys. NU-1: anonymous or-item types are named after their own schema object, so the anonymous types of several user types cannot collide when they are hoisted into one root. VF-1: a validator has no slot for other validators except its parent link: child validators are made for one value and handed to the tree. VIS-*: the recursive walks (schema checker, allOf compiler, used-type collector) and the loops over the type table reach every child and every type — the visiting call is on every path through the loop body and the loop on every path to a normal return, the only bypasses being a failed comma-ok test and loop exhaustion. T10: the additionalProperties dispatch — rule text to mode (any/true, false, @type, a schema type name, anything else rejected) and mode to validator (any value / reject the key / kind check for object, array, scalar / the named type's validators), exhaustive over the declared modes. T-tree: union semantics of candidate validators — every live candidate receives each lexeme and a position is rejected only when every candidate failed (1..3 candidates x all outcomes). T-object: an unknown key is offered to the key shortcuts, then to additionalProperties, else rejected. T-any: additionalProperties any swallows one whole value.",
 		Assume: []string{
 			"which validators a types list expands to (transitive expansion, de-duplication by name), allOf inheritance and the matching of a key against a shortcut's string type are not decided",
 		},
@@ -220,8 +220,8 @@ func init() {
 	})
 	property(&Property{
 		ID:      "C04",
-		Rules:   []string{"SH-1", "SH-visit", "T-allfail", "T-enum", "T7", "T4", "SC-1", "VIS-check", "T-chkarray", "T-chklist", "T-rawkey"},
-		Explain: "T-chklist: an example with declared types is held against the checkers of those types only. T-rawkey: document keys are looked up by their JSON-decoded text. T-chkarray: the checker gives the example array's own length to exactly the item-count rules that are present, a lone minItems or maxItems included. VIS-*: the recursive walks (schema checker, allOf compiler, used-type collector) and the loops over the type table reach every child and every type — the visiting call is on every path through the loop body and the loop on every path to a normal return, the only bypasses being a failed comma-ok test and loop exhaustion. SC-1: the per-node scratch maps from which checkLinksOfNode decides whether the kind of an example is among the kinds its types admit are emptied before every collection (or every insertion is undone), so the verdict for a node never uses what an earlier node admitted. SH-1: the schema-check path (literalChecker/mixedChecker) and the document path (literalValidator) both go through validator.ValidateLiteralValue, LiteralValidator.Validate is invoked nowhere else (so Check and Validate cannot disagree on what a rule means), and the array checker gives the example array's own length to minItems and maxItems. SH-visit: checkNode has a case for every concrete schema.Node type, descends into every child, and CheckRootSchema covers the root and every added type. T-allfail: a literal example is rejected iff every candidate checker rejects it, with the candidate's own positioned error when alone. T7/T4: the kind matrix and the item-count comparators used on that path.",
+		Rules:   []string{"SH-1", "SH-visit", "T-allfail", "T-enum", "T7", "T4", "SC-1", "VIS-check", "T-chkarray", "T-chklist", "T-rawkey", "T14"},
+		Explain: "T14: the literal check the checker shares with validation runs every rule of the node exactly once — const does not hide the other rules. T-chklist: an example with declared types is held against the checkers of those types only. T-rawkey: document keys are looked up by their JSON-decoded text. T-chkarray: the checker gives the example array's own length to exactly the item-count rules that are present, a lone minItems or maxItems included. VIS-*: the recursive walks (schema checker, allOf compiler, used-type collector) and the loops over the type table reach every child and every type — the visiting call is on every path through the loop body and the loop on every path to a normal return, the only bypasses being a failed comma-ok test and loop exhaustion. SC-1: the per-node scratch maps from which checkLinksOfNode decides whether the kind of an example is among the kinds its types admit are emptied before every collection (or every insertion is undone), so the verdict for a node never uses what an earlier node admitted. SH-1: the schema-check path (literalChecker/mixedChecker) and the document path (literalValidator) both go through validator.ValidateLiteralValue, LiteralValidator.Validate is invoked nowhere else (so Check and Validate cannot disagree on what a rule means), and the array checker gives the example array's own length to minItems and maxItems. SH-visit: checkNode has a case for every concrete schema.Node type, descends into every child, and CheckRootSchema covers the root and every added type. T-allfail: a literal example is rejected iff every candidate checker rejects it, with the candidate's own positioned error when alone. T7/T4: the kind matrix and the item-count comparators used on that path.",
 		Assume: []string{
 			"that the shared validation is sufficient for every construct (e.g. array items typed by or) and the exact position reported for each violation are not decided",
 		},
